@@ -25,7 +25,15 @@ out=["## 14. Detection results: seeded changes and which checks report them\n",
 "`tools/verify_seeded.sh`), and - for the `Cxx-mK` rows - comes with a demonstration that fails with the",
 "change and passes without it. The `Cxx-mK` changes were written by independent sub-agents that saw only",
 "the property text and a scratch worktree (nothing from /verif); `FIX-<commit>` rows are the reverts of the",
-"repairs of section 13. Each was applied to a scratch worktree of /repo (never to /repo itself), the harness",
+"repairs of section 13. Six rounds of 36 changes were collected (two per property and round); from the second",
+"round on the agents were told which kinds of change earlier rounds had delivered and were pointed elsewhere",
+"(the prompts are kept under tools/prompts/): round 3 interactions of two features and state carried between",
+"calls, round 4 helper functions, trait impls, prelude-name collisions, raw identifiers and boundary sizes,",
+"round 5 first-vs-later occurrences, order of checks, byte-vs-char handling and key spelling, round 6 quietly",
+"defaulted Option/Result values, string round trips and the shapes of real chain metadata. Of the 216 changes",
+"about a quarter were NOT reported by the quick tier as it stood when they arrived; every miss was turned into",
+"a wider alphabet or a further oracle clause (sections 12.3 and 15) and re-run, which is what the table shows.",
+"Each was applied to a scratch worktree of /repo (never to /repo itself), the harness",
 "rebuilt against it (`tools/try_seeded.sh`), and the quick tier of the listed checks run. 'reported' = exit 1",
 "with VIOLATION lines; the first signatures are shown. Where a check other than the property's own is listed,",
 "it was run to see how far the change shows (a miss there is not a miss of the property).\n",
